@@ -174,6 +174,69 @@ def labels(prog, R):
     return sorted(out)
 
 
+# hand-written program shapes the synthesiser does not produce, each with the exact traces it must give (completion order):
+# two code objects that start on ONE source line; a recursive closure reached only through a container (the one frame whose
+# locals hold it is its own); a lambda that is a local of its caller and is called back from C code; a generator expression
+SHAPE_SRC = '''
+def outer(x, key=lambda v: [v]): return key(x)
+
+def make():
+    def fact(n):
+        return 1 if n <= 1 else n * fact(n - 1)
+    return fact
+HOLDER = {"f": make()}
+def use():
+    return HOLDER["f"](3)
+
+def sort_names(names):
+    fold = lambda s: s.lower()
+    return sorted(names, key=fold)
+
+def total(xs): return sum(v * 1.5 for v in xs)
+'''
+
+
+def _shape_expectations():
+    from typing import Callable, List
+    return {
+        "outer": ("outer(1)", [("<lambda>", {"v": int}, List[int]), ("outer", {"x": int, "key": Callable}, List[int])]),
+        "use": ("use()", [("make.<locals>.fact", {"n": int}, int)] * 3 + [("use", {}, int)]),
+        "sort_names": ("sort_names(['b', 'A'])", [("sort_names.<locals>.<lambda>", {"s": str}, str)] * 2 + [("sort_names", {"names": List[str]}, List[str])]),
+        "total": ("total([1, 2])", [("total", {"xs": List[int]}, float)]),
+    }
+
+
+def shape_table(ctx, sc, order, rounds):
+    import importlib
+    from monkeytype.tracing import CallTraceLogger, trace_calls
+    name, path = sc.new_module(SHAPE_SRC, stem="mtv_shapes")
+    spec = ["SHAPES", list(order), rounds]
+    ctx.case(spec, True, ["hand-written-shapes", "rounds=%d" % rounds])
+    exp = _shape_expectations()
+    try:
+        mod = importlib.import_module(name)
+        logged = []
+
+        class L(CallTraceLogger):
+            def log(self, t):
+                logged.append(t)
+
+        with trace_calls(L(), 0, lambda code: code.co_filename == path):
+            for _ in range(rounds):
+                for o in order:
+                    eval(exp[o][0], vars(mod))
+        want = [(q, tuple(sorted((k, repr(v)) for k, v in a.items())), repr(r)) for _ in range(rounds) for o in order for (q, a, r) in exp[o][1]]
+        got = [(t.func.__qualname__, tuple(sorted((k, repr(v)) for k, v in t.arg_types.items())), repr(t.return_type)) for t in logged
+               if t.func.__code__.co_name != "<genexpr>"]
+        if got != want:
+            missing = [w for w in want if w not in got]
+            extra = [g for g in got if g not in want]
+            sig = "C02/completed-call-not-logged:shape" if missing and not extra else "C02/trace-differs-from-call:shape"
+            return ctx.fail(sig, spec, f"calls {[exp[o][0] for o in order]} x{rounds}\nexpected (completion order) {want}\nlogged {got}\nmissing {missing[:4]} unexpected {extra[:4]}")
+    finally:
+        sc.drop(name, path)
+
+
 def shard(ctx):
     q = ctx.tier == "quick"
     sc = tracerun.Scratch("c02-")
@@ -186,6 +249,13 @@ def shard(ctx):
                 check_result(ctx, prog, res, [prog, k])
             return test
         core.run_hypothesis(ctx, factory, 600 if q else 4000)
+
+        def factory_shapes(ctx):
+            @given(st.permutations(["outer", "use", "sort_names", "total"]), st.integers(1, 4), st.sampled_from([1, 2]))
+            def test(order, n, rounds):
+                shape_table(ctx, sc, list(order)[:n], rounds)
+            return test
+        core.run_hypothesis(ctx, factory_shapes, 6 if q else 60, salt=3)
     finally:
         sc.close()
 
@@ -197,6 +267,8 @@ def run(ctx):
 def replay(ctx, case):
     sc = tracerun.Scratch("c02-")
     try:
+        if case[0] == "SHAPES":
+            return shape_table(ctx, sc, case[1], case[2])
         res = tracerun.run_program(case[0], sc, k=case[1])
         check_result(ctx, case[0], res, case)
     finally:
